@@ -195,6 +195,7 @@ type RunResult struct {
 	Misuse    []string
 	Readers   int
 	Hashes    int
+	TaintSites map[string]int
 }
 
 // runHarness executes one harness function over all its vCase choices.
@@ -241,6 +242,12 @@ func runHarness(l *Loaded, base *State, e *Engine, fn *ssa.Function, tier int, c
 		res.Taints = append(res.Taints, h.taints...)
 		res.Notes = append(res.Notes, h.notes...)
 		res.Misuse = append(res.Misuse, h.abstractMisuse...)
+		if res.TaintSites == nil {
+			res.TaintSites = map[string]int{}
+		}
+		for k, v := range h.taintSites {
+			res.TaintSites[h.Name+":"+k] += v
+		}
 		res.Readers += len(h.readerCalls)
 		res.Hashes += h.hashCalls
 		for k, v := range h.cutsUsed {
